@@ -1,7 +1,7 @@
 (* C02 — k-centers picks farthest points, never widens the radius, stops exactly on cue,
    the triangle-inequality shortcut changes nothing, and the result is a 2-approximation. *)
 From Coq Require Import List ZArith QArith.
-From EV Require Import KcGuardBase KcGuardGen KcArgs KcGuardProofs Cluster ClusterCase ClusterBase ClusterInv ClusterPam ClusterKC ClusterTop ClusterExample.
+From EV Require Import KcGuardBase KcGuardGen KcArgs KcGuardProofs ClusterGen ClusterSkel ClusterGenProofs Cluster ClusterCase ClusterBase ClusterInv ClusterPam ClusterKC ClusterTop ClusterExample.
 Import ListNotations.
 
 (* starts from the first frame ... *)
@@ -90,6 +90,12 @@ Theorem c02_stopping_criteria_normalisation : forall nc dc,
   end.
 Proof. exact effective_spec. Qed.
 Print Assumptions c02_stopping_criteria_normalisation.
+
+(* the shortcut's recompute test (distances > cc_dists[assignments] / 2) as regenerated from kcenters.py *)
+Theorem c02_source_shortcut_test_is_model : forall D ctrs c k x,
+  kc_update_ti_skel D gen_ti_recompute gen_kc_improves ctrs c k x = kc_update_ti D ctrs c k x.
+Proof. exact gen_kc_update_ti_is_model. Qed.
+Print Assumptions c02_source_shortcut_test_is_model.
 
 (* the triangle-inequality shortcut returns the same centres, labels and distances *)
 Theorem c02_shortcut_same_result_cold : forall D, (forall f, D f f == 0) -> (forall c f, c <> f -> 0 < D c f) ->
